@@ -3,6 +3,7 @@
 
 #include <QBuffer>
 #include <QDomDocument>
+#include <QSet>
 #include <QDomElement>
 #include <QString>
 #include <QStringList>
@@ -84,8 +85,72 @@ inline bool streamReaderAccepts(const QString &fragment, QString *error = nullpt
     }
     return true;
 }
+// Neither Qt parser rejects a start tag that carries the same attribute twice (e.g. two xmlns declarations); XML does
+// (well-formedness constraint "Unique Att Spec").  Scans text both Qt parsers have already accepted.
+inline bool uniqueAttributes(const QString &x, QString *error = nullptr)
+{
+    const int n = x.size();
+    int i = 0;
+    while (i < n) {
+        if (x[i] != u'<') {
+            i++;
+            continue;
+        }
+        if (x.midRef(i, 4) == QLatin1String("<!--")) {
+            int e = x.indexOf(QLatin1String("-->"), i + 4);
+            i = e < 0 ? n : e + 3;
+            continue;
+        }
+        if (x.midRef(i, 9) == QLatin1String("<![CDATA[")) {
+            int e = x.indexOf(QLatin1String("]]>"), i + 9);
+            i = e < 0 ? n : e + 3;
+            continue;
+        }
+        if (i + 1 < n && (x[i + 1] == u'?' || x[i + 1] == u'!' || x[i + 1] == u'/')) {
+            int e = x.indexOf(u'>', i);
+            i = e < 0 ? n : e + 1;
+            continue;
+        }
+        // start tag: name, then attributes
+        int j = i + 1;
+        while (j < n && !x[j].isSpace() && x[j] != u'>' && x[j] != u'/')
+            j++;
+        const QString tag = x.mid(i + 1, j - i - 1);
+        QSet<QString> names;
+        while (j < n) {
+            while (j < n && x[j].isSpace())
+                j++;
+            if (j >= n || x[j] == u'>' || x[j] == u'/')
+                break;
+            int k = j;
+            while (k < n && x[k] != u'=' && !x[k].isSpace())
+                k++;
+            const QString name = x.mid(j, k - j);
+            while (k < n && x[k] != u'"' && x[k] != u'\'')
+                k++;
+            if (k >= n)
+                break;
+            const QChar quote = x[k];
+            int e = x.indexOf(quote, k + 1);
+            if (e < 0)
+                break;
+            if (names.contains(name)) {
+                if (error)
+                    *error = QStringLiteral("attribute '%1' appears twice in <%2>").arg(name, tag);
+                return false;
+            }
+            names.insert(name);
+            j = e + 1;
+        }
+        int e = x.indexOf(u'>', j);
+        i = e < 0 ? n : e + 1;
+    }
+    return true;
+}
 inline bool wellFormed(const QString &fragment, QString *error = nullptr)
 {
+    if (!uniqueAttributes(fragment, error))
+        return false;
     auto p = parseFragment(fragment);
     if (!p.ok()) {
         if (error)
